@@ -1,6 +1,6 @@
 //! Type-directed generator of queries and tables (construction, never rejection).
 //!
-//! A query is built deterministically from a *choice tape* (`Vec<u16>` drawn by proptest): every decision
+//! A query is built deterministically from a *choice tape* (`Vec<u8>` of variable length drawn by proptest): every decision
 //! maps a tape cell monotonically onto the alternatives, simplest alternative first, so proptest's
 //! shrinking of the cells (towards 0) shrinks the query (towards leaves / fewer clauses); an exhausted
 //! tape yields 0 = the simplest choice everywhere. Only well-typed trees with exactly matching operand
@@ -190,7 +190,7 @@ pub fn tables_strategy(cfg: &GenConfig) -> BoxedStrategy<Vec<Table>> {
 
 pub fn query_strategy(cfg: &GenConfig) -> BoxedStrategy<Query> {
     let cfg = cfg.clone();
-    prop::collection::vec(any::<u16>(), cfg.tape_len..=cfg.tape_len).prop_map(move |tape| build_query(&cfg, tape)).boxed()
+    prop::collection::vec(any::<u8>(), 0..=cfg.tape_len).prop_map(move |tape| build_query(&cfg, tape)).boxed()
 }
 
 pub fn case_strategy(cfg: &GenConfig) -> BoxedStrategy<SqlCase> {
@@ -198,16 +198,22 @@ pub fn case_strategy(cfg: &GenConfig) -> BoxedStrategy<SqlCase> {
 }
 
 /// Build the query a tape denotes (exposed so that other generators can embed queries).
-pub fn build_query(cfg: &GenConfig, tape: Vec<u16>) -> Query {
+pub fn build_query(cfg: &GenConfig, tape: Vec<u8>) -> Query {
+    build_query_stats(cfg, tape).0
+}
+
+/// also reports how many tape cells the construction consumed
+pub fn build_query_stats(cfg: &GenConfig, tape: Vec<u8>) -> (Query, usize) {
     let mut g = G { cfg, t: Tape { data: tape, pos: 0 }, next_rel: 0, next_col: 0, next_cte: 0, ctes: vec![], top_select_pending: false };
-    g.top_query()
+    let q = g.top_query();
+    (q, g.t.pos)
 }
 
 // ---------------------------------------------------------------------------------------------
 // tape
 
 struct Tape {
-    data: Vec<u16>,
+    data: Vec<u8>,
     pos: usize,
 }
 
@@ -224,12 +230,12 @@ impl Tape {
             self.next();
             return 0;
         }
-        ((self.next() as usize) * n) >> 16
+        ((self.next() as usize) * n.min(256)) >> 8
     }
     /// true with probability pct %; a zero cell is always false
     fn chance(&mut self, pct: u32) -> bool {
         let v = self.next();
-        pct > 0 && v * 100 >= 65536 * (100 - pct.min(100))
+        pct > 0 && v * 100 >= 256 * (100 - pct.min(100))
     }
     /// index into weights; index 0 at cell 0 (list the simplest alternative first)
     fn weighted(&mut self, ws: &[u32]) -> usize {
@@ -238,7 +244,7 @@ impl Tape {
             self.next();
             return 0;
         }
-        let x = ((self.next() as u64 * total as u64) >> 16) as u32;
+        let x = ((self.next() as u64 * total as u64) >> 8) as u32;
         let mut acc = 0;
         for (i, w) in ws.iter().enumerate() {
             acc += w;
@@ -1553,36 +1559,54 @@ pub fn features(q: &Query) -> Vec<String> {
     f.into_iter().collect()
 }
 
-/// does some subquery refer to a relation alias it does not define itself?
+/// relation aliases defined anywhere inside `q` (FROM clauses of all nested levels)
+pub fn defined_aliases(q: &Query) -> Vec<String> {
+    let mut out = vec![];
+    super::analysis::visit_queries(q, &mut |qq| {
+        fn set(e: &SetExpr, out: &mut Vec<String>) {
+            match e {
+                SetExpr::Select(s) => {
+                    if let Some(t) = &s.from {
+                        tref(t, out)
+                    }
+                }
+                SetExpr::SetOp { left, right, .. } => {
+                    set(left, out);
+                    set(right, out)
+                }
+                SetExpr::Query(_) => {}
+            }
+        }
+        fn tref(t: &TableRef, out: &mut Vec<String>) {
+            match t {
+                TableRef::Table { alias, .. } | TableRef::Derived { alias, .. } | TableRef::Series { alias, .. } | TableRef::Values { alias, .. } => out.push(alias.clone()),
+                TableRef::Join { left, right, .. } => {
+                    tref(left, out);
+                    tref(right, out)
+                }
+            }
+        }
+        set(&qq.body, &mut out);
+    });
+    out
+}
+
+/// does the (sub)query refer to a relation alias it does not define itself (= is it correlated)?
+pub fn has_outer_refs(sq: &Query) -> bool {
+    let defs = defined_aliases(sq);
+    let mut found = false;
+    super::analysis::visit_exprs(sq, &mut |x| {
+        if let Expr::Col { rel: Some(r), .. } = x {
+            if !defs.contains(r) {
+                found = true;
+            }
+        }
+    });
+    found
+}
+
+/// does some subquery of `q` refer to a relation alias it does not define itself?
 pub fn is_correlated(q: &Query) -> bool {
-    fn defined(q: &Query, out: &mut Vec<String>) {
-        super::analysis::visit_queries(q, &mut |qq| {
-            fn set(e: &SetExpr, out: &mut Vec<String>) {
-                match e {
-                    SetExpr::Select(s) => {
-                        if let Some(t) = &s.from {
-                            tref(t, out)
-                        }
-                    }
-                    SetExpr::SetOp { left, right, .. } => {
-                        set(left, out);
-                        set(right, out)
-                    }
-                    SetExpr::Query(_) => {}
-                }
-            }
-            fn tref(t: &TableRef, out: &mut Vec<String>) {
-                match t {
-                    TableRef::Table { alias, .. } | TableRef::Derived { alias, .. } | TableRef::Series { alias, .. } | TableRef::Values { alias, .. } => out.push(alias.clone()),
-                    TableRef::Join { left, right, .. } => {
-                        tref(left, out);
-                        tref(right, out)
-                    }
-                }
-            }
-            set(&qq.body, out);
-        });
-    }
     let mut found = false;
     super::analysis::visit_exprs(q, &mut |e| {
         let sub = match e {
@@ -1591,15 +1615,9 @@ pub fn is_correlated(q: &Query) -> bool {
             _ => None,
         };
         if let Some(sq) = sub {
-            let mut defs = vec![];
-            defined(sq, &mut defs);
-            super::analysis::visit_exprs(sq, &mut |x| {
-                if let Expr::Col { rel: Some(r), .. } = x {
-                    if !defs.contains(r) {
-                        found = true;
-                    }
-                }
-            });
+            if has_outer_refs(sq) {
+                found = true;
+            }
         }
     });
     found
